@@ -298,7 +298,7 @@ def one_case(ctx, m, stream='main'):
 
 
 def run(ctx):
-    n = ctx.n(90, 700) if ctx.driver is not None else ctx.n(150, 900)
+    n = ctx.n(180, 900) if ctx.driver is not None else ctx.n(300, 1200)
     for name, obj in C.corpus_cases(PROP):
         try:
             one_case(ctx, G.from_json(obj['input']['mesh'] if 'input' in obj else obj['mesh']))
